@@ -89,9 +89,16 @@ pub fn gen(rng: &mut Rng, idx: usize, n: usize, thorough: bool) -> String {
     // through s, so every value and bound is an exact multiple of 2^-m and differences between
     // candidate optima drop far below 2^-52 in absolute terms while staying exact in f64
     let scaled = rng.chance(1, 8);
-    let tiny: u32 = *rng.pick(&[30u32, 40, 45]);
+    // one or two scaling variables (2^-30, 2^-40, or 2^-30 * 2^-30 = 2^-60 < 2^-52)
+    let tinies: Vec<u32> = if !scaled { vec![] } else { match rng.below(4) { 0 => vec![30], 1 => vec![40], _ => vec![30, 30] } };
     let otarget = target;
-    let (p, target, negflag) = if scaled { (format!("{p} N 1 a {target} {npool}"), npool + 1, 0u8) } else { (p, target, rng.coin() as u8) };
+    let negflag = if scaled { 0u8 } else { rng.coin() as u8 };
+    let (mut p, mut target) = (p, target);
+    for (j, _) in tinies.iter().enumerate() {
+        // pool: N at index npool + 2j, the conjunction at npool + 2j + 1
+        p = format!("{p} N 1 a {target} {}", npool + 2 * j);
+        target = npool + 2 * j + 1;
+    }
     let mut s = format!("{p} Q {target} {negflag} {k}");
     for v in &q {
         s.push_str(&format!(" {v}"));
@@ -109,7 +116,7 @@ pub fn gen(rng: &mut Rng, idx: usize, n: usize, thorough: bool) -> String {
             s.push_str(&format!(" {} {h}", 8 - h));
         }
     }
-    if scaled {
+    for tiny in &tinies {
         s.push_str(&format!(" {}@{tiny} 1@{tiny}", (1u64 << tiny) - 1));
     }
     // expected-utility weights
@@ -136,7 +143,7 @@ pub fn gen(rng: &mut Rng, idx: usize, n: usize, thorough: bool) -> String {
             s.push_str(&format!(" {} 0 {h} 0", 8 - h));
         }
     }
-    if scaled {
+    for _ in &tinies {
         s.push_str(" 4 0 4 0");
     }
     s
